@@ -28,7 +28,7 @@ META = {
     "level_note": "Trusted: composition of symplectic maps is symplectic; T11 (symmetric composition of an order-(n-2) "
                   "symmetric method with factors satisfying the two conditions has order n); dH/dQ, dH/dP being the "
                   "gradient of one polynomial is C17. Not decided: long-time boundedness of the energy error (backward "
-                  "error analysis T9). Float gamma compared with tolerance 1e-12.",
+                  "error analysis T9). Float gamma compared with tolerance 1e-12. The gradient evaluators are checked on structurally sparse Hamiltonians (a variable absent from the quadratic part), shared with C17.",
     "technique": "symbolic execution of real sub-maps + ghost symmetric Hessian, polynomial identities (sympy); recorded-callee composition check",
 }
 
